@@ -576,8 +576,11 @@ def execute_plan(plan) -> dict:
             faults=ph.get("faults", ()),
             hot_funcs=HOT_FUNCS,
             force_trace=bool(plan.get("force_trace")),
-            step_cap=plan.get("step_cap", 1_500_000),
-            op_step_cap=plan.get("op_step_cap", 400_000),
+            # bounded liveness: the largest operation in the pool (optimized from_grammar of
+            # sql.pest) takes 225 000 steps; an operation may take ten times that, a phase
+            # forty times
+            step_cap=plan.get("step_cap", 10_000_000),
+            op_step_cap=plan.get("op_step_cap", 2_500_000),
         )
         sched.op_order = [{op["oid"]: i for i, op in enumerate(ops)} for ops in clients]
         if explicit is not None and explicit.get("first") is not None and 0 <= explicit["first"] < n:
